@@ -241,6 +241,10 @@ class Registry:
                     es = kw['ensures'].elts if isinstance(kw['ensures'], (ast.List, ast.Tuple)) else [kw['ensures']]
                     for e in es:
                         ac.clauses.append(Clause('ensures', auto('abs_ensures'), e))
+                if 'on_any_exit' in kw:
+                    es = kw['on_any_exit'].elts if isinstance(kw['on_any_exit'], (ast.List, ast.Tuple)) else [kw['on_any_exit']]
+                    for e in es:
+                        ac.clauses.append(Clause('on_any_exit', auto('abs_on_any_exit'), e))
                 ac.is_abstract = True
                 ac.label = _const_str(kw['label']) if 'label' in kw else pattern
                 c.abstracts.append(Abstract(pattern, ac))
@@ -702,9 +706,10 @@ def apply_abstract(it, ac, args, kwargs):
     if it.pure:
         raise Unsupported('abstract callee inside a specification')
     label = ac.label
-    st.trusted.add('abstract callee %s: returns any value or raises %s; modifies only %s' % (
+    st.trusted.add('abstract callee %s: returns any value or raises %s; modifies only %s%s' % (
         label, 'nothing' if ac.raises_nothing else ', '.join(ast.unparse(n) for n in (ac.raises_only or [])) or 'BaseException',
-        ', '.join(ast.unparse(n) for n in ac.modifies) or 'nothing'))
+        ', '.join(ast.unparse(n) for n in ac.modifies) or 'nothing',
+        ''.join('; assumed on every exit: ' + ast.unparse(cl.node) for cl in ac.clauses if cl.kind == 'on_any_exit')))
     locs = eval_locs(it, ac.modifies)
     pre_heap = st.heap.copy()
     pre_alloc = st.alloc
@@ -723,6 +728,12 @@ def apply_abstract(it, ac, args, kwargs):
             if cur is None:
                 cur = Val.i(z3.Int('G0_' + gname))
             st.heap.ghost[gname] = Val.i(Val.iv(cur) + 1)
+            exits = [cl for cl in ac.clauses if cl.kind == 'on_any_exit']
+            if exits:
+                postr = Interp(st, ac.glob, it.reg, it.fn, pure=True, env=dict(it.env), old=(pre_heap, dict(it.env)),
+                               specials={'raised': exc, '__pre_alloc__': pre_alloc})
+                for cl in exits:
+                    st.assume(postr.truth(postr.ev(cl.node)))
             raise PyRaise(exc, origin=label)
     result = st.fresh('ret_' + label.replace('.', '_'))
     st.assume(z3.Implies(Val.is_o(result), Val.ref(result) < st.alloc))
